@@ -65,6 +65,40 @@ FeatViol(e) ==
             THEN {[l |-> l, prop |-> "C16", what |-> "documentation links are not attached to exactly the selecting labels/attributes", case |-> e.case, layout |-> e.layout]}
             ELSE {})
 
+\* ---- C13 / C12: names, types, labels ---------------------------------------------------------------
+RECURSIVE ContainsS(_, _)
+ContainsS(s, sub) == IF Len(sub) > Len(s) THEN FALSE ELSE SubSeq(s, 1, Len(sub)) = sub \/ ContainsS(SubSeq(s, 2, Len(s)), sub)
+RECURSIVE PKey(_)
+PKey(p) == IF p = <<>> THEN "" ELSE IF Len(p) = 1 THEN ToString(p[1]) ELSE ToString(p[1]) \o "." \o PKey(Tail(p))
+NExt(e, n) == LET x == e.obs.extn[PKey(n.path)] IN
+              IF n.kind = "label" THEN x.labels[n.j] ELSE x.name
+NFull(e, n) == e.obs.extn[PKey(n.path)].full
+TokType(n) == IF n.kind = "attr" THEN "hcl-attrName" ELSE IF n.kind = "block" THEN "hcl-blockType" ELSE "hcl-blockLabel"
+
+NameViol(e) ==
+  LET names == NamesP(e.schema, e.doc, <<>>, <<>>)
+      exp == { <<TokType(n), n.mods, NExt(e, n)[1], NExt(e, n)[2]>> : n \in names }
+      obs == { <<e.obs.ntoks[i][1], e.obs.ntoks[i][2], e.obs.ntoks[i][3], e.obs.ntoks[i][4]>> : i \in DOMAIN e.obs.ntoks }
+      missing == exp \ obs
+      extra == obs \ exp
+      \* hover: for every name the harness asked about
+      hv == e.obs.nhov
+      known(h) == { n \in names : n.path = h[1] /\ ((h[2] = "name" /\ n.kind \in {"attr", "block"}) \/ (h[2] = "label" /\ n.kind = "label" /\ n.j = h[3])) }
+      hbad == { i \in DOMAIN hv :
+                 LET h == hv[i] k == known(h) IN
+                 IF k = {} THEN h[5] # -1 /\ FALSE      \* unknown element: nothing is asserted (it may be described as part of an enclosing element)
+                 ELSE LET n == CHOOSE n \in k : TRUE
+                          rng == IF n.kind = "attr" THEN NFull(e, n) ELSE NExt(e, n) IN
+                      ~(h[4] = "ok" /\ h[5] = rng[1] /\ h[6] = rng[2] /\ ContainsS(h[7], n.text) /\ (n.desc = "" \/ ContainsS(h[7], n.desc))) }
+  IN
+  (IF missing # {} THEN LET m == CHOOSE m \in missing : TRUE IN
+     {[l |-> l, prop |-> "C13", what |-> IF \E x \in obs : x[1] = m[1] /\ x[3] = m[3] /\ x[4] = m[4] THEN "token of a name / label carries the wrong modifiers (" \o m[1] \o ")"
+                                         ELSE "no token for a schema-known name (" \o m[1] \o ")", case |-> e.case, layout |-> e.layout]} ELSE {})
+  \cup (IF extra # {} /\ missing = {} THEN {[l |-> l, prop |-> "C13", what |-> "token for a name the schema does not know (" \o (CHOOSE x \in extra : TRUE)[1] \o ")", case |-> e.case, layout |-> e.layout]} ELSE {})
+  \cup (IF hbad # {} THEN LET h == hv[CHOOSE i \in hbad : TRUE] IN
+          {[l |-> l, prop |-> "C12", what |-> "hover on a schema-known " \o (IF h[2] = "label" THEN "label" ELSE "attribute name / block type")
+                                              \o " does not name it with the effective schema's description and its own range", case |-> e.case, layout |-> e.layout]} ELSE {})
+
 V(prop, what) == [l |-> l, prop |-> IF prop = "C15" /\ Ev.feat THEN "C16" ELSE prop,
                   what |-> IF prop = "C15" /\ Ev.feat THEN "validation does not see the selected body schema: " \o what ELSE what,
                   case |-> Ev.case, layout |-> Ev.layout]
@@ -118,7 +152,7 @@ TInit == l = 1 /\ bad = {} /\ keymemo = <<>>
 Step ==
   /\ l <= Len(Trace)
   /\ l' = l + 1
-  /\ bad' = bad \cup (IF Ev.ev = "Body" THEN BodyViol(Ev) \cup (IF Ev.feat THEN FeatViol(Ev) ELSE {})
+  /\ bad' = bad \cup (IF Ev.ev = "Body" THEN BodyViol(Ev) \cup (IF Ev.feat THEN FeatViol(Ev) \cup NameViol(Ev) ELSE {})
                       ELSE IF Ev.ev = "Key" THEN KeyViol(Ev) ELSE {})
   /\ keymemo' = IF Ev.ev = "Key" THEN << << ToSet(Ev.ls), ToSet(Ev.as) >>, Ev.key >> ELSE keymemo
 
